@@ -130,6 +130,8 @@ func materialise(q vreq) *pbsubstreamsrpc.Request {
 		case "none":
 		case "noquery_a":
 			pm.BlockFilter = &pbsubstreams.Module_BlockFilter{Module: "a"}
+		case "noquery_zz": // no query AND a dangling module reference (seed C17r5a)
+			pm.BlockFilter = &pbsubstreams.Module_BlockFilter{Module: "zz"}
 		case "nilquery_b":
 			pm.BlockFilter = &pbsubstreams.Module_BlockFilter{Module: "b", Query: &pbsubstreams.Module_BlockFilter_QueryString{}}
 		default:
